@@ -79,7 +79,22 @@ pub fn vec_range(v: &Vec<ExprValue>, a: usize, b: usize) -> (r: Vec<ExprValue>) 
 #[verifier::external_body]
 pub fn slice_has(rest: &[ExprValue], value: &ExprValue) -> (r: bool) ensures r == rest@.contains(*value) { unimplemented!() }
 
+pub uninterp spec fn rhypot(x: real, y: real) -> real;
+pub uninterp spec fn ratan2(y: real, x: real) -> real;      // atan2 of (y, x), in radians: ARGUMENT ORDER MATTERS
+/// `[a, b].as_slice().into()`: a two-element list of numbers
+#[verifier::external_body]
+pub fn pair_value(a: R32, b: R32) -> (r: ExprValue)
+    ensures r is List && r->List_0@.len() == 2 && r->List_0@[0] == ExprValue::Number(a) && r->List_0@[1] == ExprValue::Number(b)
+{ unimplemented!() }
+pub open spec fn is_pair(r: Result<ExprValue>, a: real, b: real) -> bool {
+    r is Ok && r->Ok_0 is List && r->Ok_0->List_0@.len() == 2 && r->Ok_0->List_0@[0] is Number && r->Ok_0->List_0@[1] is Number
+    && val(r->Ok_0->List_0@[0]->Number_0) == a && val(r->Ok_0->List_0@[1]->Number_0) == b
+}
 impl R32 {
+    #[verifier::external_body]
+    pub fn hypot(self, o: R32) -> (r: R32) ensures val(r) == rhypot(val(self), val(o)) { unimplemented!() }
+    #[verifier::external_body]
+    pub fn atan2(self, o: R32) -> (r: R32) ensures val(r) == ratan2(val(self), val(o)) { unimplemented!() }
     #[verifier::external_body]
     pub fn signum(self) -> (r: R32) ensures val(self) > 0real ==> val(r) == 1real, val(self) < 0real ==> val(r) == -1real { unimplemented!() }
     /// f32::clamp panics unless min <= max
@@ -254,6 +269,31 @@ impl ExprValue {
 //@end
 
 // ------------------------------------------------------------------------------ numeric arms (real model)
+//@item src/functions.rs :: fn eval_function
+//@ fragment-name arm_rect2polar
+//@ fragment-inner
+//@ fragment-from <<<        Function::Rect2Polar => {>>>
+//@ fragment-to <<<\n        }\n        Function::Polar2Rect => >>>
+//@ fragment-head <<<fn arm_rect2polar(args: &ExprValue) -> Result<ExprValue> {>>>
+//@ fragment-tail <<<}>>>
+//@ replace-re[R-pair] <<<\[(.+?), (.+?)\]\.as_slice\(\)\.into\(\)>>> => <<<pair_value(\1, \2)>>>
+//@ ensures
+//@ - (match num2(*args) { Some(p) => is_pair(r, rhypot(p.0, p.1), rto_degrees(ratan2(p.1, p.0))), None => r is Err })     @@C14.fn.r2p
+//@end
+
+//@item src/functions.rs :: fn eval_function
+//@ fragment-name arm_polar2rect
+//@ fragment-inner
+//@ fragment-from <<<        Function::Polar2Rect => {>>>
+//@ fragment-to <<<\n        }\n        Function::Addv => >>>
+//@ fragment-head <<<fn arm_polar2rect(args: &ExprValue) -> Result<ExprValue> {>>>
+//@ fragment-tail <<<}>>>
+//@ replace-re[R-pair] <<<\[(.+?), (.+?)\]\.as_slice\(\)\.into\(\)>>> => <<<pair_value(\1, \2)>>>
+//@ ensures
+//@ - (match num2(*args) { Some(p) => is_pair(r, p.0 * rcos(rto_radians(p.1)), p.0 * rsin(rto_radians(p.1))), None => r is Err })     @@C14.fn.p2r
+//@end
+
+
 //@item src/functions.rs :: fn eval_function
 //@ fragment-name arm_sign
 //@ fragment-inner
